@@ -8,7 +8,7 @@ LEVEL_TEXT = {
                   "the model's outputs equal those of a plain ordered map and the invariant Live0 is re-established; C01_from_fresh_directory "
                   "makes it unconditional from an empty directory. K2 ties the model to the code: random histories run on the real library "
                   "and on the extracted model, results diffed; an independent Python ordered-map oracle checks the real outputs.",
-             note=BASE_NOTE + "Hypothesis NoCollide over the contents that occur in the history (no global injectivity). c_pre=false in the fresh-directory theorem. "
+             note=BASE_NOTE + "Hypothesis NoCollide over the contents that occur in the history (no global injectivity). Both values of pre_create_cas_dirs. "
                               "Restart inside a history is C02's theorem."),
  "C06": dict(text="Theorem C06_cas_immutable: along every API history every recorded filesystem call is cas_safe (never creates, opens for writing, "
                   "appends to, syncs or renames away a path under cas/; CAS paths occur only as rename targets from staging/ and in unlink), and "
@@ -58,7 +58,7 @@ LEVEL_TEXT.update({
                   "the invariant Inv (memory, CAS, on-disk snapshot and log) holds at the end; C02_observations_equal: keys, refcounts, unique_blobs, total_bytes "
                   "identical with and without restarts; C02_one_restart from any Inv state (replay skipping versions <= snapshot, next version above everything, "
                   "after-replay checkpoint, pruning). K2 with close/open and checkpoints at random positions; oracle: state before close == state after open on the real library.",
-             note=BASE_NOTE + "hist_fits: sizes within the on-disk format's fields; c_pre=false. stats.index.serialized_size_bytes is specified as the index file's length "
+             note=BASE_NOTE + "hist_fits: sizes within the on-disk format's fields; both values of pre_create_cas_dirs. stats.index.serialized_size_bytes is specified as the index file's length "
                               "(proved in C02_one_restart), not compared across a reopen that checkpoints."),
  "C10": dict(text="Theorems C10_truncation / C10_any_truncation_yields_a_prefix / C10_payload_change_detected / C10_checksum_change_detected / "
                   "C10_accepted_records_are_checksummed (framing layer, any hash function) and C10_damage / C10_never_panics / C10_never_applies_an_altered_operation "
@@ -100,7 +100,7 @@ LEVEL_TEXT.update({
                   "C03_recovery_is_crash_safe, C03_nested_crashes_during_recovery, C03_put_every_prefix, plus C20 / C12 / C06 at every crash point as corollaries of the "
                   "memory-less invariant Rest. K4: the real process is killed before every effective call of every sampled history (LD_PRELOAD shim), the crashed "
                   "directory equals the model's crash image, and the real reopen is checked by an independent oracle (acked subset, in-flight all-or-nothing, usable).",
-             note=BASE_NOTE + "Process-kill model: completed calls persist, a call is atomic (a write(2) torn by the kill itself is outside it). c_pre=false and sizes within the "
+             note=BASE_NOTE + "Process-kill model: completed calls persist, a call is atomic (a write(2) torn by the kill itself is outside it). Both values of pre_create_cas_dirs (a kill inside the 65,536-mkdir loop of the first open included: C03_first_open_crash_safe); sizes within the "
                               "format's fields (ext_fits). Recovery after a crash establishes Inv' (DiskOk with a relaxed seal bound; counterexample to the strict one is proved)."),
  "C08": dict(text="Theorems C08_scan_exact (orphans / missing / corrupted / invalid / staging lists are exactly what directory and index imply, for arbitrary planted files), "
                   "C08_cleanup_restores_C07 (delete_orphans removes exactly the reported garbage, keeps every referenced blob, restores exactness), "
